@@ -1,3 +1,3 @@
 import MpfVerif.DriverLoop
-/-! Driver of the C10 model (stub until the model exists): answers bad-op to everything. -/
-def main : IO UInt32 := MpfVerif.runDriver (fun (s : Unit) _ => (s, "bad-op")) ()
+import MpfVerif.Model.Rules
+def main : IO UInt32 := MpfVerif.runDriver MpfVerif.Rules.driverStep {}
